@@ -298,11 +298,19 @@ def identChar (c : Char) : Bool :=
   (48 ≤ c.toNat && c.toNat ≤ 57) || (65 ≤ c.toNat && c.toNat ≤ 90) ||
     (97 ≤ c.toNat && c.toNat ≤ 122) || c.toNat == 95
 
-/-- Python identifier (ASCII): nonempty, identifier characters, not starting with a digit -/
-def isIdent (k : String) : Bool :=
-  match k.toList with
+/-- reserved words of Python 3 (not usable as a function or keyword-argument name) -/
+def pyKeywords : List String :=
+  ["False", "None", "True", "and", "as", "assert", "async", "await", "break", "class", "continue",
+   "def", "del", "elif", "else", "except", "finally", "for", "from", "global", "if", "import", "in",
+   "is", "lambda", "nonlocal", "not", "or", "pass", "raise", "return", "try", "while", "with", "yield"]
+
+def isIdentText : List Char → Bool
   | [] => false
   | c :: cs => !isDig c && identChar c && cs.all identChar
+
+/-- Python identifier (ASCII): nonempty, identifier characters, not starting with a digit,
+    not a reserved word -/
+def isIdent (k : String) : Bool := !pyKeywords.contains k && isIdentText k.toList
 
 def Arg.text : Arg → List Char
   | .pos l => l.text
